@@ -301,7 +301,7 @@ func (c *checker) numberStream(r *rng.R, n int) {
 		var parts []string
 		k := 1 + r.Intn(3)
 		for j := 0; j < k; j++ {
-			switch r.Intn(6) {
+			switch r.Intn(7) {
 			case 0:
 				t, _ := g.doubleText()
 				parts = append(parts, t)
@@ -313,11 +313,17 @@ func (c *checker) numberStream(r *rng.R, n int) {
 			case 3: // doubles around the range limits and halfway cases
 				parts = append(parts, []string{"1.7976931348623157e308", "1.7976931348623158e308", "1.7976931348623159e308", "1e309", "4.9e-324", "2.4703282292062327e-324",
 					"2.4703282292062328e-324", "2.2250738585072011e-308", "9007199254740993.0", "9007199254740992.5", "0.1", "1e23", "8.41e21", "5e-324", "1e-400", "-0.0", "0e999", "1.e5", "1.", "123456789012345678901234567890.5e-10"}[r.Intn(20)])
+			case 4: // a well-formed number with one more character glued on
+				t, _ := g.doubleText()
+				if r.Bool() {
+					t = g.intText(g.intValue())
+				}
+				parts = append(parts, t+string("gGxXeE.+-_zZ09afAF"[r.Intn(18)])+[]string{"", "1", "g"}[r.Intn(3)])
 			default: // digits, dots, exponents glued together at random
 				m := 1 + r.Intn(8)
 				var sb strings.Builder
 				for x := 0; x < m; x++ {
-					sb.WriteByte("0123456789.eE+-x"[r.Intn(16)])
+					sb.WriteByte("0123456789.eE+-xXabcdfgABCDFG_"[r.Intn(29)])
 				}
 				parts = append(parts, sb.String())
 			}
@@ -328,10 +334,38 @@ func (c *checker) numberStream(r *rng.R, n int) {
 	}
 }
 
+// ---- token soup: vocabulary pieces and identifier-like characters glued together, so that every
+// token boundary decision of the scanner (longest match, what may continue a token) is exercised ----
+
+const soupAlphabet = "abefgxz_09AZ.+-\"'/*#<>(){}[],;:= \t\n\\"
+
+func (c *checker) soupStream(r *rng.R, n int) {
+	for i := 0; i < n; i++ {
+		var sb strings.Builder
+		k := 1 + r.Intn(8)
+		for j := 0; j < k; j++ {
+			switch r.Intn(5) {
+			case 0, 1:
+				sb.WriteString(vocabulary[r.Intn(len(vocabulary))])
+			case 2:
+				m := 1 + r.Intn(5)
+				for x := 0; x < m; x++ {
+					sb.WriteByte(soupAlphabet[r.Intn(len(soupAlphabet))])
+				}
+			case 3:
+				sb.WriteString(reservedList[r.Intn(len(reservedList))])
+			default:
+				sb.WriteByte(" \t\n"[r.Intn(3)])
+			}
+		}
+		c.checkAny([]byte(sb.String()), "token-soup")
+	}
+}
+
 func runStreams(c *checker, r *rng.R) {
-	nValid, nBig, nD18, nMut, nRand, nLit, nDoc, nNum := 1500, 60, 300, 3000, 1500, 3000, 3000, 1500
+	nValid, nBig, nD18, nMut, nRand, nSoup, nLit, nDoc, nNum := 6000, 200, 1200, 12000, 4000, 8000, 12000, 12000, 6000
 	if *tier == "thorough" {
-		nValid, nBig, nD18, nMut, nRand, nLit, nDoc, nNum = 40000, 1500, 8000, 90000, 40000, 90000, 90000, 40000
+		nValid, nBig, nD18, nMut, nRand, nSoup, nLit, nDoc, nNum = 60000, 2000, 12000, 120000, 40000, 80000, 120000, 120000, 60000
 	}
 	var pool [][]byte
 	for i := 0; i < nValid+nBig; i++ {
@@ -365,6 +399,7 @@ func runStreams(c *checker, r *rng.R) {
 	for i := 0; i < nRand; i++ {
 		c.checkAny(randomBytes(r), "random-bytes")
 	}
+	c.soupStream(r, nSoup)
 	c.literalStream(r, nLit)
 	c.docStream(r, nDoc)
 	c.numberStream(r, nNum)
@@ -373,6 +408,6 @@ func runStreams(c *checker, r *rng.R) {
 		"decimal/signed/hex integers, doubles with fraction/exponent, docstring shapes attached and detached, annotations everywhere), " +
 		"compared with the printer's tree and true positions; a second rendering that allows a newline directly after a keyword (D18 probe); " +
 		"token-level mutations of rendered documents (delete/duplicate/swap/replace/insert from a vocabulary of tokens and malformed tokens, truncation, byte edits); " +
-		"random bytes; pattern-conformant random literals; docstring-like byte strings with Unicode spaces; numeric token strings. " +
+		"random bytes; token soup (vocabulary pieces, reserved words and identifier-like characters glued together); pattern-conformant random literals; docstring-like byte strings with Unicode spaces; numeric token strings. " +
 		"non-trivial = non-empty input; distinct by input bytes"
 }
